@@ -146,9 +146,9 @@ func r19HTTPRequestID(c *an.Ctx) {
 		headerEmpty, hk := false, false
 		for k, v := range e {
 			switch {
-			case k == "free:useReqID":
+			case regexp.MustCompile(`^free:⟨\(\*middleware\.RequestIDOptions\)\.IsUseRequestID\(middleware\.NewRequestIDOptions\(outer\.p0\)\)⟩$`).MatchString(k):
 				trusted = v
-			case regexp.MustCompile(`^\(\(net/http\.Header\)\.Get\(p1\.Header, free:reqIDHeader\) == ""\)$`).MatchString(k):
+			case regexp.MustCompile(`^\(\(net/http\.Header\)\.Get\(p1\.Header, free:⟨\(\*middleware\.RequestIDOptions\)\.RequestIDHeader\(middleware\.NewRequestIDOptions\(outer\.p0\)\)⟩\) == ""\)$`).MatchString(k):
 				headerEmpty, hk = v, true
 			default:
 				probs = append(probs, "closure branches on "+k)
@@ -163,12 +163,12 @@ func r19HTTPRequestID(c *an.Ctx) {
 				serve = cl
 			}
 		}
-		usesHeader := strings.Contains(gen, "context.WithValue((*net/http.Request).Context(p1), "+key+", (net/http.Header).Get(p1.Header, free:reqIDHeader))")
+		usesHeader := strings.Contains(gen, "context.WithValue((*net/http.Request).Context(p1), "+key+", (net/http.Header).Get(p1.Header, free:⟨(*middleware.RequestIDOptions).RequestIDHeader(middleware.NewRequestIDOptions(outer.p0))⟩))")
 		wantHeader := trusted && hk && !headerEmpty
 		if usesHeader != wantHeader {
 			probs = append(probs, fmt.Sprintf("under [%s] inbound header used=%v, expected %v", p.GuardString(), usesHeader, wantHeader))
 		}
-		if gen == "" || !strings.HasSuffix(gen, ", free:o)") {
+		if gen == "" || !strings.HasSuffix(gen, ", free:⟨middleware.NewRequestIDOptions(outer.p0)⟩)") {
 			probs = append(probs, "GenerateRequestID is not called with the middleware's options")
 		}
 		if serve == "" || !strings.Contains(serve, "(*net/http.Request).WithContext(p1, "+gen+")") {
@@ -268,10 +268,10 @@ func r19GRPCRequestID(c *an.Ctx) {
 		for _, p := range it.Paths {
 			ok := false
 			for _, cl := range p.CallEffects() {
-				if name == "UnaryRequestID" && strings.HasPrefix(cl, "dyn:p3(grpc/middleware.generateRequestID(p0, free:o), p1)") {
+				if name == "UnaryRequestID" && strings.HasPrefix(cl, "dyn:p3(grpc/middleware.generateRequestID(p0, free:⟨middleware.NewRequestIDOptions(outer.p0)⟩), p1)") {
 					ok = true
 				}
-				if name == "StreamRequestID" && strings.HasPrefix(cl, "dyn:p3(p0, grpc/middleware.NewWrappedServerStream(grpc/middleware.generateRequestID(p1.Context(), free:o), p1))") {
+				if name == "StreamRequestID" && strings.HasPrefix(cl, "dyn:p3(p0, grpc/middleware.NewWrappedServerStream(grpc/middleware.generateRequestID(p1.Context(), free:⟨middleware.NewRequestIDOptions(outer.p0)⟩), p1))") {
 					ok = true
 				}
 			}
@@ -402,7 +402,7 @@ func r19HTTPTrace(c *an.Ctx) {
 	ph, _ := constValue(c, "http/middleware", "ParentSpanIDHeader")
 	inT := "(net/http.Header).Get(p1.Header, " + th + ")"
 	inP := "(net/http.Header).Get(p1.Header, " + ph + ")"
-	traceShape(c, "R19.3", f, f.Name+"$handler", t, inT, inP, "free:o", "free:sampler", "(*net/http.Request).Context(p1)")
+	traceShape(c, "R19.3", f, f.Name+"$handler", t, inT, inP, "free:⟨middleware.NewTraceOptions(outer.p0)⟩", "free:⟨(*middleware.TraceOptions).NewSampler(middleware.NewTraceOptions(outer.p0))⟩", "(*net/http.Request).Context(p1)")
 	var down []string
 	for i := range t.Paths {
 		p := &t.Paths[i]
@@ -490,10 +490,10 @@ func r19GRPCTrace(c *an.Ctx) {
 		for _, p := range it.Paths {
 			ok := false
 			for _, cl := range p.CallEffects() {
-				if name == "UnaryServerTrace" && strings.HasPrefix(cl, "dyn:p3(grpc/middleware.withTrace(p0, p2.FullMethod, free:o), p1)") {
+				if name == "UnaryServerTrace" && strings.HasPrefix(cl, "dyn:p3(grpc/middleware.withTrace(p0, p2.FullMethod, free:⟨middleware.NewTraceOptions(outer.p0)⟩), p1)") {
 					ok = true
 				}
-				if name == "StreamServerTrace" && strings.HasPrefix(cl, "dyn:p3(p0, grpc/middleware.NewWrappedServerStream(grpc/middleware.withTrace(p1.Context(), p2.FullMethod, free:o), p1))") {
+				if name == "StreamServerTrace" && strings.HasPrefix(cl, "dyn:p3(p0, grpc/middleware.NewWrappedServerStream(grpc/middleware.withTrace(p1.Context(), p2.FullMethod, free:⟨middleware.NewTraceOptions(outer.p0)⟩), p1))") {
 					ok = true
 				}
 			}
@@ -758,7 +758,7 @@ func r19Options(c *an.Ctx) {
 			continue
 		}
 		n++
-		param := "free:" + fn.Params[0].Name()
+		param := "free:⟨outer.p0⟩"
 		var probs []string
 		for i := range t.Paths {
 			p := &t.Paths[i]
